@@ -177,6 +177,48 @@ def eliminate_returns_flag(stmts, target, flag):
     return [init] + body + [tail]
 
 
+def split_tuple_assigns(stmts):
+    """`a, b = (x, y)` -> `a = x; b = y` when sequential assignment equals the
+    parallel one (no target is read by a later element); `a = a` is dropped."""
+    out = []
+    for s in stmts:
+        for field in ("body", "orelse", "finalbody"):
+            blk = getattr(s, field, None)
+            if isinstance(blk, list) and blk and isinstance(blk[0], ast.stmt) \
+                    and not isinstance(s, (ast.FunctionDef, ast.ClassDef,
+                                           ast.AsyncFunctionDef)):
+                setattr(s, field, split_tuple_assigns(blk) or [ast.Pass()])
+        if isinstance(s, ast.Try):
+            for h in s.handlers:
+                h.body = split_tuple_assigns(h.body) or [ast.Pass()]
+        if isinstance(s, ast.Assign) and len(s.targets) == 1 and \
+                isinstance(s.targets[0], ast.Tuple) and \
+                isinstance(s.value, ast.Tuple) and \
+                len(s.targets[0].elts) == len(s.value.elts) and \
+                all(isinstance(e, ast.Name) for e in s.targets[0].elts) and \
+                not any(isinstance(e, ast.Starred) for e in s.value.elts):
+            ts = [e.id for e in s.targets[0].elts]
+            vs = s.value.elts
+            hazard = any(isinstance(x, ast.Name) and x.id == ts[i]
+                         for i in range(len(ts)) for j in range(i + 1, len(vs))
+                         for x in ast.walk(vs[j]))
+            if not hazard and len(set(ts)) == len(ts):
+                for t, v in zip(ts, vs):
+                    if isinstance(v, ast.Name) and v.id == t:
+                        continue
+                    out.append(ast.copy_location(ast.Assign(
+                        targets=[ast.Name(id=t, ctx=ast.Store())], value=v,
+                        lineno=s.lineno), s))
+                continue
+        if isinstance(s, ast.Assign) and len(s.targets) == 1 and \
+                isinstance(s.targets[0], ast.Name) and \
+                isinstance(s.value, ast.Name) and \
+                s.value.id == s.targets[0].id:
+            continue
+        out.append(s)
+    return out
+
+
 def _simple_def(fn):
     if not isinstance(fn, ast.FunctionDef):
         return False
@@ -387,8 +429,15 @@ class Expander(object):
         return None
 
     # -------------------------------------------------------------- expansion
-    def _instantiate(self, caller, fn, call, drop_self, target_name=None):
+    def _instantiate(self, caller, fn, call, drop_self, target_name=None,
+                     keep_locals=True):
         """-> (binding statements, body copy) or None"""
+        if target_name is None:
+            target_names = set()
+        elif isinstance(target_name, str):
+            target_names = {target_name}
+        else:
+            target_names = set(target_name)
         if not _simple_def(fn):
             return None
         if any(isinstance(a, ast.Starred) for a in call.args) or \
@@ -429,10 +478,20 @@ class Expander(object):
         # capture-avoiding renaming of the helper's own names
         taken = _names(caller)
         mp = {}
+        allp = set(params + kwonly)
         for n in sorted(_bound(fn)):
             if drop_self and n == "self":
                 continue
             if n in taken:
+                # a helper local named like a variable that receives (part of)
+                # the call's result keeps its name: the caller's variable is
+                # overwritten by the result anyway and nothing the helper is
+                # handed mentions it
+                if keep_locals and n in target_names and n not in allp \
+                        and not any(
+                        isinstance(x, ast.Name) and x.id == n
+                        for a in actual.values() for x in ast.walk(a)):
+                    continue
                 self.counter += 1
                 mp[n] = "%s__%s%d" % (n, fn.name.strip("_"), self.counter)
         body = [copy.deepcopy(s) for s in fn.body]
@@ -457,7 +516,7 @@ class Expander(object):
                 # ... or when the call's result is assigned to that very
                 # variable (`x = h(x)`): every path ends in binding it anyway
                 if isinstance(a, ast.Name) and a.id == p and \
-                        (p == target_name or _dead_after(caller, call, p)):
+                        (p in target_names or _dead_after(caller, call, p)):
                     keep.add(p)
                 continue
             if isinstance(a, ast.Constant):
@@ -490,8 +549,120 @@ class Expander(object):
                 value=copy.deepcopy(a), lineno=call.lineno), call))
         return binds, body
 
+    # --------------------------------------------------- nested helper calls
+    def _nested_call(self, fi, s, nested):
+        """The first helper call (evaluation order) that sits INSIDE an
+        expression of statement s rather than being its whole value, and that
+        is evaluated unconditionally and before any other call of s.
+        -> (call, resolved, parent, field, index) or None"""
+        roots = []
+        if isinstance(s, ast.Assign):
+            roots = [(s, "value", None)]
+        elif isinstance(s, (ast.AugAssign, ast.Expr, ast.Return)):
+            roots = [(s, "value", None)] if s.value is not None else []
+        elif isinstance(s, ast.If):
+            roots = [(s, "test", None)]
+        elif isinstance(s, ast.For):
+            roots = [(s, "iter", None)]
+        elif isinstance(s, ast.Raise) and s.exc is not None:
+            roots = [(s, "exc", None)]
+        found = []
+
+        def children(e):
+            for fld, val in ast.iter_fields(e):
+                if isinstance(val, ast.AST):
+                    yield fld, None, val
+                elif isinstance(val, list):
+                    for i, x in enumerate(val):
+                        if isinstance(x, ast.AST):
+                            yield fld, i, x
+
+        def walk(e, parent, fld, idx, top):
+            """-> False to stop the search"""
+            if isinstance(e, (ast.Lambda, ast.ListComp, ast.SetComp,
+                              ast.DictComp, ast.GeneratorExp, ast.Await,
+                              ast.Yield, ast.YieldFrom, ast.NamedExpr)):
+                return False
+            if isinstance(e, ast.BoolOp):
+                # only the first operand is evaluated unconditionally
+                if not walk(e.values[0], e, "values", 0, False):
+                    return False
+                return False
+            if isinstance(e, ast.IfExp):
+                walk(e.test, e, "test", None, False)
+                return False
+            if isinstance(e, ast.Call):
+                # func expression, then arguments, then the call itself
+                for f2, i2, c in children(e):
+                    if not walk(c, e, f2, i2, False):
+                        return False
+                r = self.resolve(fi, e, nested)
+                if r and not top:
+                    found.append((e, r, parent, fld, idx))
+                return False      # nothing after the first call is hoisted
+            for f2, i2, c in children(e):
+                if not walk(c, e, f2, i2, False):
+                    return False
+            return True
+        for par, fld, idx in roots:
+            e = getattr(par, fld)
+            top = not isinstance(s, (ast.For, ast.Raise))
+            if isinstance(s, ast.If) and isinstance(e, ast.UnaryOp) and \
+                    isinstance(e.op, ast.Not):
+                par, fld, e = e, "operand", e.operand
+            walk(e, par, fld, idx, top)
+            if found:
+                return found[0]
+        return None
+
+    def _expand_nested(self, fi, s, nested):
+        """`... h(a) ...` -> the helper's return expression in place when h is
+        a single-expression helper whose parameters all substitute; otherwise
+        `_h__N = h(a)` is hoisted in front of the statement (the call is the
+        first one evaluated and is evaluated unconditionally, see
+        _nested_call), and the ordinary expansion takes it from there."""
+        nc = self._nested_call(fi, s, nested)
+        if nc is None:
+            return None
+        call, (fn, drop_self), parent, fld, idx = nc
+        inst = self._instantiate(fi.node, fn, call, drop_self)
+        if not inst:
+            return None
+        binds, body = inst
+
+        def put(new):
+            ast.copy_location(new, call)
+            for sub in ast.walk(new):
+                if isinstance(sub, (ast.expr, ast.stmt)) and \
+                        not hasattr(sub, "lineno"):
+                    ast.copy_location(sub, call)
+            if idx is None:
+                setattr(parent, fld, new)
+            else:
+                getattr(parent, fld)[idx] = new
+        if not binds and len(body) == 1 and isinstance(body[0], ast.Return) \
+                and body[0].value is not None:
+            put(body[0].value)
+            ast.fix_missing_locations(s)
+            return [s], fn.name
+        self.counter += 1
+        nm = "_h__%d" % self.counter
+        pre = ast.copy_location(ast.Assign(
+            targets=[ast.Name(id=nm, ctx=ast.Store())], value=call,
+            lineno=s.lineno), s)
+        put(ast.Name(id=nm, ctx=ast.Load()))
+        ast.fix_missing_locations(pre)
+        ast.fix_missing_locations(s)
+        return [pre, s], None
+
     def _expand_stmt(self, fi, s, nested):
         """-> replacement statement list or None"""
+        r = self._expand_stmt0(fi, s, nested)
+        if r is None:
+            r = self._expand_nested(fi, s, nested)
+        return r
+
+    def _expand_stmt0(self, fi, s, nested):
         def helper_call(e):
             if isinstance(e, ast.Call):
                 r = self.resolve(fi, e, nested)
@@ -518,7 +689,9 @@ class Expander(object):
             if hc:
                 call = hc
                 t = s.targets[0]
-                if isinstance(t, (ast.Name, ast.Attribute)):
+                if isinstance(t, (ast.Name, ast.Attribute)) or (
+                        isinstance(t, ast.Tuple) and t.elts and
+                        all(isinstance(e, ast.Name) for e in t.elts)):
                     target = lambda t=t: copy.deepcopy(t)
                 else:
                     self.counter += 1
@@ -565,8 +738,13 @@ class Expander(object):
                 post = [new_if]
         if call is None:
             return None
-        tname = s.targets[0].id if isinstance(s, ast.Assign) and \
-            len(s.targets) == 1 and isinstance(s.targets[0], ast.Name) else None
+        tname = None
+        if isinstance(s, ast.Assign) and len(s.targets) == 1:
+            if isinstance(s.targets[0], ast.Name):
+                tname = s.targets[0].id
+            elif isinstance(s.targets[0], ast.Tuple) and all(
+                    isinstance(e, ast.Name) for e in s.targets[0].elts):
+                tname = {e.id for e in s.targets[0].elts}
         inst = self._instantiate(fi.node, call[1][0], call[0], call[1][1],
                                  target_name=tname)
         if not inst:
@@ -575,13 +753,20 @@ class Expander(object):
         try:
             new = eliminate_returns(body, target)
         except _NotStructured:
+            # the flag form tests the result where the helper returned it:
+            # keep the helper's own names apart from the caller's there
+            inst = self._instantiate(fi.node, call[1][0], call[0], call[1][1],
+                                     target_name=tname, keep_locals=False)
+            if not inst:
+                return None
+            binds, body = inst
             self.counter += 1
             try:
                 new = eliminate_returns_flag(body, target,
                                              "_ret__%d" % self.counter)
             except _NotStructured:
                 return None
-        out = binds + new + post
+        out = split_tuple_assigns(binds + new + post)
         for n in out:
             ast.fix_missing_locations(n)
         return out, call[1][0].name
@@ -610,13 +795,14 @@ class Expander(object):
             r = self._expand_stmt(fi, s, nested)
             if r:
                 out.extend(r[0])
-                done.append(r[1])
+                if r[1]:
+                    done.append(r[1])
                 changed = True
             else:
                 out.append(s)
         return out, changed
 
-    def expand_function(self, fi, rounds=3):
+    def expand_function(self, fi, rounds=6):
         done = []
         for _ in range(rounds):
             nested = {n.name: n for n in fi.node.body
